@@ -53,6 +53,11 @@ package peer
 // Run: PARTIAL check -- only what it hands to write() (the initial Have /
 // Bitfield announcements) is checked, for a local bitmap of exactly
 // ceil(pieces/8) bytes as Pieces.Bitmap() produces.
+// Run: PARTIAL check (see above). NOT under contract: that peer.Done is closed and
+// TorPeerGoaway sent on EVERY return path (defect F33, repaired: the deferred
+// function that does it was registered after the early returns). The deferred
+// function contains a loop, which the engine does not enter at RunDefers, so
+// the clause closedhere_(peer.Done) could not be discharged and is not claimed.
 //@ func Run
 //@   requires peer != nil && PG(peer) && len(bitmap) == (NP(peer)+7)/8
 //@   modifies *
